@@ -56,7 +56,9 @@ def strategy(tp):
         "abort": abort,
         "abort_how": st.sampled_from(["fin", "close", "rst"]),
         "abort_sync": st.sampled_from([True, True, False]),   # True: stop only after the origin has seen the upstream request head
-        "origin": st.sampled_from(["read", "read", "read", "stall", "early", "early-close"]),
+        "origin": st.sampled_from(["read", "read", "read", "stall", "early", "early-close", "slow-drain"]),
+        # slow-drain: the origin consumes slower than the client produces, so a backlog builds up inside the proxy
+        "slow_len": st.sampled_from([150000, 400000, 1000000, 2500000]),
         "stall_ms": st.sampled_from([5, 30, 150]),
         "resp_len": st.sampled_from([0, 10, 5000]),
     })
@@ -114,7 +116,10 @@ def execute(env, sc):
     r = Result()
     ns = env.ns()
     path = "/" + ns
-    body = httpref.keyed_stream(path, sc["body_len"])
+    body_len = sc["body_len"]
+    if sc["origin"] == "slow-drain":
+        body_len = max(body_len, sc.get("slow_len", 400000))
+    body = httpref.keyed_stream(path, body_len)
     framing = sc["framing"]
     version = sc["version"] if framing == "length" else "1.1"
     expect = sc["expect"] if version == "1.1" else "none"
@@ -157,6 +162,8 @@ def execute(env, sc):
         if mode == "stall":
             time.sleep(sc["stall_ms"] / 1000.0)
         beh = {"status": 200, "body_tag": path + "#resp", "body_len": sc["resp_len"], "headers": [["Cache-Control", "no-store"], ["X-Tag", ns]]}
+        if mode == "slow-drain":
+            beh["slow_read"] = {"bytes": 32768, "pause_ms": 8, "initial_stall_ms": 300}
         if mode in ("early", "early-close"):
             beh["respond_before_body"] = True
         if mode == "early-close":
